@@ -105,7 +105,7 @@ theorem b1_auxOk_exists {s : State} (hm : MInv s) (sup : List Id) : ∃ x, AuxOk
 theorem b1_tr_tm {s s' : State} {c : List Call} {R : Aux → Aux → Prop} (hm : MInv s) (h : Tr s s' c R)
     (hR : ∀ x x', AuxOk s x → AuxOk s' x' → R x x' → (absF s' x').templateModes = (absF s x).templateModes) :
     s'.templateModes = s.templateModes := by
-  obtain ⟨hm', -, -, ids, f⟩ := h
+  obtain ⟨hm', -, -, ids, hfi, f⟩ := h
   obtain ⟨x, hx, hsup⟩ := b1_auxOk_exists hm ids
   obtain ⟨x', l, r⟩ := f x [] hx (by simp [hsup])
   exact (List.map_inj_right (fun a b => b1_imode_inj)).mp (hR x x' hx l.aux r)
@@ -764,7 +764,7 @@ theorem b1_pc_removeFromParent {s : State} (hm : MInv s) (node : Id) :
   subst hout
   have hs : SameTB s s' := hs' ▸ SameTB.afterCall ..
   refine ⟨hs, ?_⟩
-  refine (Tr.of_edits (hm.sameTB hs he.ext) (cfgOf_of_same hm hs he.ext) he [] [Edit.remove node] []
+  refine (Tr.of_edits (hm.sameTB hs he.ext) (cfgOf_of_same hm hs he.ext) he [] [Edit.remove node] [] (FreshIds.nil _)
     ?_ (annot_of_sub he.ext hm (by rw [hs.openElems]; exact fun _ h => h)) (by simp)).conseq ?_
   · intro tc _
     rw [hc]
